@@ -52,11 +52,14 @@ func GenPackage(r *Rand, name string, nfuncs int) (string, GenStats) {
 			g.genericFunc()
 		}
 	}
+	// always present: named boolean types feeding &&, ||, ! and == directly, struct fields of named bool type, ~bool generics
+	g.flagFuncs()
 	// always present: range-over-func loops whose body defers (the yield closure captures the enclosing defer stack)
 	for v := 0; v < 2; v++ {
 		g.rfDeferFunc(v)
 	}
-	// always present: Lengauer-Tarjan "relative dominator" chains with permuted label order
+	// always present: Lengauer-Tarjan "relative dominator" chains: fixed directed shapes, then randomised ones
+	g.domDirected()
 	for v := 0; v < 3; v++ {
 		g.domChainFunc()
 	}
@@ -92,6 +95,19 @@ func (g *gen) escFunc(variant int) {
 	}
 }
 
+// flagFuncs: comparisons whose go/types type is a NAMED boolean type, used as direct operands of operators.
+func (g *gen) flagFuncs() {
+	g.st.StructFuncs += 6
+	k := 2 + g.r.Intn(7)
+	g.p("type Flag bool\ntype Opt struct { Strict Flag; Limit int }\n")
+	g.p("func (o Opt) ok(n int) Flag { return o.Strict && n < o.Limit }\n")
+	g.p("func flagNot(f Flag, a, b int) Flag { return !(a < b+%d) || f }\n", k)
+	g.p("func flagEq(f Flag, a, b int) bool { return f == (a >= b) || (a != %d) != f }\n", k)
+	g.p("func flagMix(o *Opt, xs []int) (r Flag) {\n\tfor _, x := range xs {\n\t\tif o.Strict && x > o.Limit || !o.Strict && x == %d { r = !r }\n\t}\n\tvar q Flag = len(xs) > %d && !r\n\treturn r == (len(xs) > 2) || q\n}\n", k, k)
+	g.p("func GenFlag[B ~bool](b B, x, y int) B { return b && x < y || !b && x == y+%d }\n", k)
+	g.p("func useFlag(a int) bool {\n\to := Opt{Strict: a > 1, Limit: %d}\n\treturn bool(o.ok(a)) || bool(GenFlag(Flag(a == 2), a, 3)) || GenFlag(a < 0, 1, a) || flagEq(flagNot(o.Strict, a, 1), a, 2) || bool(flagMix(&o, []int{a}))\n}\n\n", k+1)
+}
+
 // rfDeferFunc: a range-over-func loop with a `defer` in its body: the synthetic yield function defers onto the
 // enclosing function's defer stack, so the enclosing function's defer$stack cell is captured (escapes), while
 // other locals of the enclosing function (n, w) stay liftable.
@@ -109,6 +125,147 @@ func (g *gen) rfDeferFunc(variant int) {
 		g.p("\t\t\tdefer func() { G += j + v }()\n\t\t\tif v == %d { continue outer }\n\t\t\tif j > %d { return j }\n\t\t\tres++\n\t\t}\n\t}\n", k, k+3)
 		g.p("\tfor n < w { n += 2 }\n\treturn n + w\n}\n\n")
 	}
+}
+
+// domDirected: deterministic instances (no random choice affects the shape or the label order).
+// DomSeedA: W's immediate dominator is resolved in LT step 4 through its relative dominator X, X's through U, and
+// label W is written BEFORE label X, so W has the smaller block index although X precedes W in the DFS.
+// DomSeedB/C: the gadget of domChainFunc with the labels written in reverse DFS order / deferred blocks first.
+func (g *gen) domDirected() {
+	g.st.GotoFuncs += 3
+	g.p(`func DomSeedA(a int) int {
+	s := 0
+	if a&1 == 1 {
+		goto S
+	}
+	goto M2
+S:
+	s += 1
+	if a&2 == 2 {
+		goto U
+	}
+	goto M
+W:
+	s += 4
+	return s
+U:
+	s += 2
+	if a&4 == 4 {
+		goto X
+	}
+	goto W
+X:
+	s += 3
+	goto W
+M:
+	s += 5
+	goto X
+M2:
+	s += 6
+	goto U
+}
+
+func DomSeedB(a int) int {
+	s := 0
+	if a&1 == 1 {
+		goto A
+	}
+	goto H
+D:
+	s += 4
+	return s
+C:
+	s += 3
+	goto D
+F:
+	s += 5
+	goto D
+G:
+	s += 6
+	goto C
+B:
+	s += 2
+	if a&4 == 4 {
+		goto C
+	}
+	goto F
+H:
+	s += 7
+	goto B
+A:
+	s += 1
+	if a&2 == 2 {
+		goto B
+	}
+	goto G
+}
+
+func DomSeedC(a int) int {
+	s := 0
+	if a&1 == 1 {
+		goto A
+	}
+	goto H
+D2:
+	s += 14
+	return s
+D:
+	s += 4
+	if a&64 == 64 {
+		goto A2
+	}
+	goto H2
+C2:
+	s += 13
+	goto D2
+C:
+	s += 3
+	goto D
+A:
+	s += 1
+	if a&2 == 2 {
+		goto B
+	}
+	goto G
+B:
+	s += 2
+	if a&4 == 4 {
+		goto C
+	}
+	goto F
+F:
+	s += 5
+	goto D
+G:
+	s += 6
+	goto C
+H:
+	s += 7
+	goto B
+A2:
+	s += 11
+	if a&8 == 8 {
+		goto B2
+	}
+	goto G2
+B2:
+	s += 12
+	if a&16 == 16 {
+		goto C2
+	}
+	goto F2
+F2:
+	s += 15
+	goto D2
+G2:
+	s += 16
+	goto C2
+H2:
+	s += 17
+	goto B2
+}
+
+`)
 }
 
 // domChainFunc: goto-built acyclic CFGs in which several blocks have a semidominator different from their
